@@ -57,7 +57,9 @@ def go_cfg(c, dotu=True):
 def library_panic(stdout):
     """If the engine process died of a panic raised in the library (first non-runtime frame of the
     panicking goroutine is a go9p function other than the verif accessors), return that function."""
-    m = re.search(r"^panic: .*?$(.*?)(?:\n\s*\n|\Z)", stdout, re.S | re.M)
+    if "panic:" not in stdout:
+        return None
+    m = re.search(r"^goroutine \d+ \[running[^\n]*\n(.*?)(?:\n\s*\n|\Z)", stdout[stdout.index("panic:"):], re.S | re.M)
     if not m:
         return None
     for fm in re.finditer(r"^([\w./*()\[\]·-]+)\(.*\)\s*$", m.group(1), re.M):
@@ -228,7 +230,30 @@ def finish(ctx, stats, rule, extra=None):
     return ctx.finish("model_checking", cov, ASSUMPTIONS)
 
 
+def replay_file(ctx):
+    """bin/vcheck Cxx --replay <file>: re-execute one recorded case deterministically."""
+    data = json.load(open(ctx.replay))
+    rp = data.get("replay") or {}
+    st = new_stats()
+    if "steps" in rp:
+        bpath = ctx.path("replay.ndjson")
+        with open(bpath, "w") as f:
+            f.write(json.dumps({"id": 1, "steps": rp["steps"]}) + "\n")
+        engine(ctx, "TestReplay", env={"VERIF_BEHAVIOURS": bpath, "VERIF_CFG": json.dumps(rp["cfg"])}, name="replay")
+    elif rp.get("engine") == "free":
+        engine(ctx, "TestFreeReplay", env={"VERIF_FREECFG": json.dumps(rp["cfg"])}, name="free-replay")
+    elif "engine" in rp:
+        free_engine(ctx, rp["engine"], st, env=rp.get("env") or {}, allow_crash=True)
+        ctx.log("re-ran engine %s (a process crash shows in the output above)" % rp["engine"])
+    else:
+        ctx.inconclusive.append("replay file has no executable case")
+    st["replayed"] = 1
+    return finish(ctx, st, "single replayed case")
+
+
 def run(ctx):
+    if ctx.replay:
+        return replay_file(ctx)
     st = new_stats()
     q = ctx.quick
     # ---- S: the repaired design, healthy connection
